@@ -9,6 +9,9 @@ TRUST = ("Trusted base: Go type checker and go/ssa construction (x/tools v0.29.0
 
 # id -> (claimed?, technique, level text, not-decided / note, design ref)
 P = {
+ "C09": (True, "static analysis: lock-state dataflow (may/must held) + interprocedural blocking classifier + goroutine-root call paths; lock-order graph",
+         "Decides the absence of the structural ingredients of a permanent wedge: no unbounded blocking operation under a client-side mutex (with machine-checked side conditions for reply sends and stream operations), re-check under the write lock in reconnect, streaming-capable reply channels, deferred router deletion for stream correctables, acyclic lock order. Two genuine defects of the pinned tree are recorded as known findings (W1a stale-flag wedge, W1b/W3 streaming delivery under the router lock). Necessary structural conditions.",
+         "Not decided: liveness of a healthy node; gRPC internals; quorum-function latency.", "DESIGN.md section 3, C09"),
  "C08": (True, "static analysis: interprocedural blocking-operation classifier with parameter-binding provenance of the call context; dominance / must-pass-through in sendMsg",
          "Decides that no wait on a call's path ignores the call's context: every blocking operation reachable from the six entry points and the two per-call goroutines is a select with a case on Done() of the call's own context (followed through call-site parameter bindings and request literals), a capacity-bounded reply send or a short mutex hold; the stream write is cancellable (ctx test, watcher goroutine, close(done)); RPCCall returns ctx.Err(). A necessary condition for 'returns promptly', not a bound.",
          "Not decided: the delay itself; gRPC's reaction to cancellation; select fairness.", "DESIGN.md section 3, C08"),
